@@ -338,3 +338,19 @@ pub fn long_values(n: usize) -> Vec<Bits> {
     }
     vec![Bits::ones(n), dense, hot, hot_low, Bits::from_u128(5, n), gap]
 }
+
+/// Upper end of the dense "every length" sweeps of the unbounded types (catches behaviour tied
+/// to a WINDOW of lengths between the lattice points).
+pub fn dense_max(tier: Tier) -> usize {
+    tier.pick(2600, 8300)
+}
+
+/// (type, length) pairs of the dense sweep: every length above the routine range, the two
+/// unbounded types alternating.
+pub fn dense_lengths(tier: Tier) -> impl Iterator<Item = (Tid, usize)> {
+    (321..=dense_max(tier)).map(|n| (if n % 2 == 0 { TID_D } else { TID_A }, n))
+}
+
+pub fn dense_value(n: usize) -> Bits {
+    realize_val(&ValPat::Dense(vec![0x9E37_79B9_7F4A_7C15, 0xD1B5_4A32_D192_ED03, 0x0123_4567_89AB_CDEF, 0xFEDC_BA98_7654_3210, 0x0F1E_2D3C_4B5A_6978]), n, 64)
+}
